@@ -58,6 +58,16 @@ pub fn write_jmp_fn(addr: u64, dest: u64) {
     unsafe { std::ptr::copy_nonoverlapping(code.as_ptr(), addr as *mut u8, 6) };
 }
 
+/// `jmp *0(%rip)` followed by its 8-byte slot holding `dest` (14 bytes): what the address of an
+/// imported function designates in a non-PIC executable.
+pub fn write_import_stub(addr: u64, dest: u64) {
+    let mut code = [0u8; 14];
+    code[0] = 0xFF;
+    code[1] = 0x25;
+    code[6..14].copy_from_slice(&dest.to_le_bytes());
+    unsafe { std::ptr::copy_nonoverlapping(code.as_ptr(), addr as *mut u8, 14) };
+}
+
 /// Realistic first instructions of compiled functions (none of them changes eax or the stack
 /// balance): the patch must replace them, never run them on the way to the fake.
 pub const PROLOGUES: [&[u8]; 10] = [
